@@ -469,3 +469,65 @@ from contracts.common import FunctionAxiomsBase  # noqa: E402
 class FunctionAxioms(FunctionAxiomsBase):
     abstract = False
     prop = "C11"
+
+
+class OptionDefaults(Contract):
+    """How a parameter set is *built* from lists / nested dicts with group default options: an option the parameter
+    states itself wins over the default of its group - also when the stated value is falsy (vary: false, non-negative:
+    false, min / max 0) -, an option it does not state takes the group default, else the class default; then exactly the
+    parameters that vary and have no expression are handed to the optimiser.  Finite decision table per option
+    (own value absent / each listed value x default absent / each listed value), flat and nested labels."""
+
+    prop = "C11"
+    name = "OptionDefaults"
+    target = "glotaran.parameter.parameter:Parameter.from_list"
+    functions = ("glotaran.parameter.parameters:Parameters.from_dict", "glotaran.parameter.parameters:Parameters.from_list")
+    strength = "B"
+
+    def cases(self, tier):
+        return iter(())
+
+    def static_obligations(self, tier):
+        import itertools
+
+        import numpy as np
+
+        from glotaran.parameter import Parameter, Parameters
+
+        ABSENT = object()
+        table = {
+            "vary": ("vary", [True, False], True),
+            "non-negative": ("non_negative", [True, False], False),
+            "min": ("minimum", [0, 0.0, 0.5, -2.0], -np.inf),
+            "max": ("maximum", [0, 0.0, 3.5, 7.0], np.inf),
+        }
+        out = []
+        for key, (attr, values, class_default) in table.items():
+            bad = None
+            n = 0
+            for own, default in itertools.product([ABSENT] + values, [ABSENT] + values):
+                want = own if own is not ABSENT else (default if default is not ABSENT else class_default)
+                own_opts = {} if own is ABSENT else {key: own}
+                def_opts = {} if default is ABSENT else {key: default}
+                value = 1.25 if key in ("min", "max", "vary") else 2.0
+                builds = {
+                    "Parameter.from_list": lambda: Parameter.from_list(["p", value, own_opts] if own_opts else ["p", value], default_options=def_opts or None),
+                    "Parameters.from_list": lambda: Parameters.from_list([["p", value, own_opts] if own_opts else ["p", value], ["q", 0.5], def_opts] if def_opts else [["p", value, own_opts] if own_opts else ["p", value], ["q", 0.5]]).get("p"),
+                    "Parameters.from_dict": lambda: Parameters.from_dict({"g": {"h": [["p", value, own_opts] if own_opts else ["p", value], ["q", 0.5]] + ([def_opts] if def_opts else [])}}).get("g.h.p"),
+                }
+                for how, build in builds.items():
+                    n += 1
+                    try:
+                        got = getattr(build(), attr)
+                    except Exception as e:
+                        bad = bad or {"how": how, "own": repr(own_opts), "group_default": repr(def_opts), "exception": repr(e)}
+                        continue
+                    if not (got == want and type(got) is type(want) or (isinstance(want, (int, float)) and not isinstance(want, bool) and float(got) == float(want))):
+                        bad = bad or {"how": how, "own": repr(own_opts), "group_default": repr(def_opts), "got": repr(got), "expected": repr(want)}
+            out.append({"name": f"own_option_wins_over_group_default_wins_over_class_default[{key}]", "ok": bad is None and n > 0, "detail": f"{n} constructions" if bad is None else str(bad), "function": self.target, "strength": "B", "witness": bad})
+        # ... and the parameters built that way reach the optimiser exactly when they vary
+        ps = Parameters.from_dict({"g": [["fixed", 1.0, {"vary": False}], ["free", 2.0], ["zero_min", 0.5, {"min": 0}], {"vary": True, "min": 0.25}]})
+        labels, _, lo, _ = ps.get_label_value_and_bounds_arrays(exclude_non_vary=True)
+        ok = list(labels) == ["g.free", "g.zero_min"] and list(lo) == [0.25, 0.0]
+        out.append({"name": "group_with_default_vary_true_hands_only_its_varying_members_to_the_optimiser", "ok": ok, "detail": f"labels {list(labels)}, lower bounds {list(lo)}", "function": "glotaran.parameter.parameters:Parameters.get_label_value_and_bounds_arrays", "strength": "B"})
+        return out
